@@ -18,8 +18,8 @@ package main
 
 import (
 	"context"
-	"flag"
 	"encoding/json"
+	"flag"
 	"fmt"
 	"os"
 	"strconv"
@@ -32,10 +32,11 @@ import (
 )
 
 type job struct {
-	c    *Case
-	line string
-	det  *detResult
-	free *freeResult
+	c      *Case
+	line   string
+	det    *detResult
+	free   *freeResult
+	reconf *reconfResult
 }
 
 func ptr(v int64) *int64 { return &v }
@@ -58,6 +59,22 @@ func witnesses() []*Case {
 	out = append(out, &Case{Kind: "det", Settings: def, Client: "retain", Ops: []Op{
 		{K: "append", R: &big}, {K: "append", R: r(2, t0, 50)}, {K: "append", R: r(3, t0+4999, 50)}, {K: "append", R: r(4, t0+5000, 50)},
 		{K: "config", C: &ConfSpec{MaxWait: ptr(10), ZipMin: ptr(0)}}, {K: "append", R: r(5, t0+6000, 0)}, {K: "append", R: r(6, t0+6010, 0)}}})
+	// payloads beyond 1 MiB, compressed: a single record of ~1.5 MiB and one of ~5 MiB (compressible
+	// content) through Append and through SendDirect, and a buffer limit of 3 MiB filled by 200 KiB records;
+	// every pack is decompressed and decoded with the real compressutil / pack code
+	mib := 1 << 20
+	out = append(out, &Case{Kind: "det", Settings: def, Client: "consume", Ops: []Op{
+		{K: "append", R: r(1, t0, 3*mib/2)}, {K: "append", R: r(2, t0+1, 10)}, {K: "append", R: r(3, t0+2, 5*mib)}, {K: "step"}}})
+	out = append(out, &Case{Kind: "det", Settings: def, Client: "retain", Ops: []Op{
+		{K: "direct", Rs: []RecSpec{*r(1, t0, 20), *r(2, t0, 3*mib/2+7), *r(3, t0, 30)}}, {K: "add", R: r(4, t0, 2*mib)}, {K: "step"}, {K: "stop"}}})
+	{
+		c := &Case{Kind: "det", Settings: Settings{5000, 1000, int64(3 * mib), 100}, Client: "consume"}
+		for i := 1; i <= 17; i++ {
+			c.Ops = append(c.Ops, Op{K: "add", R: r(i, t0+int64(i), 200*1024)}, Op{K: "step"})
+		}
+		c.Ops = append(c.Ops, Op{K: "stop"})
+		out = append(out, c)
+	}
 	// a full queue refuses the newcomer and keeps what it accepted: capacity 1, 2, 5 and the
 	// default 1000, overrun by k > capacity records before the consumer takes anything
 	// (no Failed callback: that is how the sender builds its queue)
@@ -143,6 +160,7 @@ func main() {
 		for i := 0; i < nFree; i++ {
 			cases = append(cases, genFree(rng.Fork(), env.Thorough))
 		}
+		cases = append(cases, reconfCases(rng.Fork(), env.Thorough)...)
 	} else {
 		// a replayed free-running case is repeated: schedules differ from run to run
 		var more []*Case
@@ -159,7 +177,7 @@ func main() {
 	// ---------------------------------------------------------------- run on the implementation
 	jobs := make([]*job, 0, len(cases))
 	for _, c := range cases {
-		if c.Kind == "det" || c.Kind == "free" {
+		if c.Kind == "det" || c.Kind == "free" || c.Kind == "reconf" {
 			jobs = append(jobs, &job{c: c})
 		}
 	}
@@ -175,6 +193,9 @@ func main() {
 			if j.c.Kind == "det" {
 				j.line = j.c.driverLine(e.recs)
 				j.det = runDet(j.c, e)
+			} else if j.c.Kind == "reconf" {
+				j.reconf = runReconf(j.c, e)
+				j.line = j.reconf.modelLine
 			} else {
 				j.free = runFree(j.c, e)
 				j.line = j.free.modelLine
@@ -215,6 +236,8 @@ func main() {
 		nPack := 0
 		if j.det != nil {
 			finds, implPacks, implState, nPack = j.det.finds, j.det.packs, j.det.state, j.det.nPack
+		} else if j.reconf != nil {
+			finds, implPacks, nPack = j.reconf.finds, j.reconf.packs, j.reconf.nPack
 		} else {
 			finds, implPacks, nPack = j.free.finds, j.free.packs, j.free.nPack
 			rep.CountN("free:queue-drops", j.free.drops)
@@ -254,7 +277,7 @@ func main() {
 			rep.Fail("correspondence", "model:packs-differ",
 				fmt.Sprintf("the property holds on this history, but the packs differ from the model's: implementation %s; model %s", vh.Clip(gotPacks, 400), vh.Clip(want, 400)), replay)
 		}
-		if j.free != nil && !strings.HasSuffix(parts[1], "pc=exited cancelled=1") && !isProp {
+		if (j.free != nil || j.reconf != nil) && !strings.HasSuffix(parts[1], "pc=exited cancelled=1") && !isProp {
 			rep.Fail("correspondence", "model:loop-not-exited", "the loop machine did not exit on the reconstructed schedule: "+vh.Clip(parts[1], 300), replay)
 		}
 		if j.det != nil && parts[1] != implState && !isProp {
